@@ -4,6 +4,7 @@ Both dispatchers run as real asyncio programs on symx.vloop.VLoop (a SelectorEve
 when every task is blocked on a timer); basana.core.dt.utc_now is rebound to the loop's virtual clock.
 """
 import asyncio
+import functools
 import datetime
 import logging
 
@@ -126,12 +127,15 @@ def vrun(ctx, main_coro_fn):
 
 # ====================================================================================== C15
 def realtime_timing(ctx, nev_a=2, nev_b=1, njobs=1, max_mc=2, idle=True, window_ms=(-50, 100), horizon=0.45,
-                    long_last_job=False, job_zones=False):
+                    long_last_job=False, job_zones=False, far_jobs=()):
     lo, hi = START + ms(window_ms[0]), START + ms(window_ms[1])
     mc = ctx.int("max_concurrent", 1, max_mc)
     whens_a = [ctx.dt("when_a%d" % i, lo, hi) for i in range(nev_a)]
     whens_b = [ctx.dt("when_b%d" % i, lo, hi) for i in range(nev_b)]
-    whens_j = [ctx.dt("when_job%d" % i, lo, hi) for i in range(njobs)]
+    # (far_jobs: indices of jobs scheduled an hour later - never due within the horizon, but they sit in the same queue)
+    HOUR = datetime.timedelta(hours=1)
+    whens_j = [ctx.dt("when_job%d" % i, lo + (HOUR if i in far_jobs else ms(0)), hi + (HOUR if i in far_jobs else ms(0)))
+               for i in range(njobs)]
     dur = [0.0, 0.03][ctx.choice("handler_duration", 2)]
     out = {}
     # the caller may name a job's instant in any time zone (same instant, another tzinfo label)
@@ -227,6 +231,9 @@ def realtime_timing(ctx, nev_a=2, nev_b=1, njobs=1, max_mc=2, idle=True, window_
                                                    "those", info=(len(out["errors"]), ndropped_total))
     for i, w in enumerate(whens_j):
         name = "job%d" % i
+        if i in far_jobs:
+            ctx.prove(name not in started, "C15 a job is never dispatched before its time")
+            continue
         ctx.prove(name in started, "C15 every due job is dispatched")
         if name in started:
             ctx.prove(w <= started[name], "C15 a job is never dispatched before its time")
@@ -250,6 +257,7 @@ def lifecycle(ctx, kind="backtesting", max_mc=3, nprod=2):
     ending = ENDINGS[ctx.choice("ending", len(ENDINGS))]
     dur = [0.0, 0.03, 5.0][ctx.choice("handler_duration", 3)]
     with_jobs = ctx.flag("with_scheduled_jobs")
+    partial_callables = ctx.flag("handlers_and_jobs_are_partial_objects")
     out = {}
     factory_before = logging.getLogRecordFactory()
 
@@ -294,9 +302,17 @@ def lifecycle(ctx, kind="backtesting", max_mc=3, nprod=2):
                     tr.leave(key)
                 tr.add("event", ev.name, "end:" + hname)
             return on_ev
+        def as_kind(fn):
+            # the handlers / jobs as plain coroutine functions or as functools.partial objects (no __name__/__qualname__)
+            if not partial_callables:
+                return fn
+
+            async def with_tag(tag, *a):
+                return await fn(*a)
+            return functools.partial(with_tag, "tag")
         for p, (src, evs) in enumerate(srcs):
-            d.subscribe(src, mk("h1", p))
-            d.subscribe(src, mk("h2", p))
+            d.subscribe(src, as_kind(mk("h1", p)))
+            d.subscribe(src, as_kind(mk("h2", p)))
         jobs_run = []
         if with_jobs:
             for k in range(2):
@@ -313,7 +329,7 @@ def lifecycle(ctx, kind="backtesting", max_mc=3, nprod=2):
                             tr.leave(key)
                     return job
                 when = (START + ms(10)) if kind == "realtime" else START + datetime.timedelta(days=1 + k)
-                d.schedule(when, mkjob(k))
+                d.schedule(when, as_kind(mkjob(k)))
         if kind == "realtime":
             async def on_idle():
                 await asyncio.sleep(0.001)
@@ -341,7 +357,7 @@ def lifecycle(ctx, kind="backtesting", max_mc=3, nprod=2):
                 d.stop()
         t0 = loop.time()
         try:
-            await asyncio.wait_for(asyncio.shield(t), timeout=3000)
+            await asyncio.wait_for(asyncio.shield(t), timeout=60)      # virtual seconds; the longest legitimate run takes ~30
             out["result"] = ("returned", None)
         except asyncio.CancelledError:
             out["result"] = ("cancelled", None)
